@@ -550,16 +550,34 @@ func playPhase(res *result, sc *scenario, rq requester, cam *fakecam.Camera, s *
 	if first > len(frames) {
 		first = len(frames)
 	}
-	live := frames[first:]
-	if sc.Live < len(live) {
-		live = live[:sc.Live]
+	rawLive := frames[first:]
+	if sc.Live < len(rawLive) {
+		rawLive = rawLive[:sc.Live]
+	}
+	// the camera only sends frames of tracks that were set up (a deviating SDP may have fewer)
+	var up [2]bool
+	if c := cam.Conns(); len(c) > 0 {
+		up[0], up[1] = c[len(c)-1].Channels[0][0] >= 0, c[len(c)-1].Channels[1][0] >= 0
+	}
+	filter := func(fs []fakecam.Frame) (out []fakecam.Frame) {
+		for _, f := range fs {
+			if f.Track >= 0 && f.Track < 2 && up[f.Track] {
+				out = append(out, f)
+			}
+		}
+		return
+	}
+	live := filter(rawLive)
+	sentAll := filter(frames[:first+len(rawLive)])
+	if len(rawLive) > 0 && len(live) == 0 {
+		cam.Send(-1, len(rawLive), 0)
 	}
 	if len(live) > 0 {
 		gap := time.Duration(0)
 		if sc.Paced {
 			gap = heartbeat + heartbeat/2
 		}
-		if !cam.Send(-1, len(live), gap) {
+		if !cam.Send(-1, len(rawLive), gap) {
 			res.failf("camera-write", "the camera could not send its live frames: %s", renderConns(cam.Conns()))
 			return
 		}
@@ -571,7 +589,7 @@ func playPhase(res *result, sc *scenario, rq requester, cam *fakecam.Camera, s *
 				res.failf("delivery", "consumer %d received %d packets and not the last of the %d the camera sent after it was attached", ci, len(got), len(live))
 				continue
 			}
-			if why := compareDelivery(got, frames[:first+len(live)], len(live)); why != "" {
+			if why := compareDelivery(got, sentAll, len(live)); why != "" {
 				res.failf("delivery", "consumer %d: %s", ci, why)
 			}
 			res.delivered += len(got)
